@@ -56,12 +56,14 @@ type clntStep struct {
 	ctx         int // 0 not done, 1 the caller cancelled, 2 the caller's own deadline expired
 	timer, pick bool
 	rd          int
-	data        []byte // returned together with the error, whatever it is
+	data        []byte        // returned together with the error, whatever it is
+	gap         time.Duration // the Read takes this long (a device that trickles its bytes); timing only
 }
 
 type clntScript struct {
 	swd, wr, fl bool
-	short       int // > 0: Write takes only this many bytes per call and returns (short, nil)
+	short       int           // > 0: Write takes only this many bytes per call and returns (short, nil)
+	maxElapsed  time.Duration // > 0: a call that takes longer counts as not returning (trickle cases)
 	steps       []clntStep
 	timerT      time.Duration // the ReadTimeout to configure when the script has a timer step (0: clntTimerT)
 	gate        *clntGate     // stream cpar: every Read waits for the other clients of the batch
@@ -291,6 +293,9 @@ func (t *clntTransport) Read(p []byte) (int, error) {
 	case clntRdIOErrTimeout:
 		n = copy(p, st.data)
 		err = &net.OpError{Op: "read", Net: "scripted", Err: os.NewSyscallError("read", syscall.ETIMEDOUT)}
+	}
+	if st.gap > 0 {
+		time.Sleep(st.gap)
 	}
 	t.rec.add(L(I(5), B(p[:n]), I(clntErrClass(err))))
 	// what the next iteration's select will see
@@ -715,6 +720,10 @@ func (cc *clntClient) do(rq *clntRq, sc clntScript, try int) ([]V, bool) {
 		})
 	})
 	if !returned {
+		return []V{L(I(98)), L()}, false
+	}
+	if sc.maxElapsed > 0 && time.Since(callStart) > sc.maxElapsed {
+		// the call did return, but far beyond its TOTAL read timeout: reported like a call that hangs
 		return []V{L(I(98)), L()}, false
 	}
 	if budget > 0 && !tr.blocked && time.Since(callStart) > budget {
